@@ -120,14 +120,27 @@ static void run_soup(const Soup &s, bool emit) {
         .raw("in", project(*m0, true, acc)).end();
   }
   // the same per-corner data as a point cloud (PointCloudBuilder), with and without deduplication
-  for (int dedup = 0; dedup < 2; ++dedup) {
+  // (dedup4 2, 3: the values come from ONE interleaved record array through SetAttributeValuesForAllPoints with a stride larger than the value)
+  for (int dedup4 = 0; dedup4 < 4; ++dedup4) {
+    const int dedup = dedup4 % 2;
     PointCloudBuilder pb;
     const int np = 3 * s.nf;
     pb.Start(np);
     std::vector<int> ids;
     for (auto &a : s.atts) ids.push_back(pb.AddAttribute(a.type, (int8_t)a.nc, a.dt));
-    for (size_t a = 0; a < s.atts.size(); ++a)
-      for (int c = 0; c < np; ++c) pb.SetAttributeValueForPoint(ids[a], PointIndex(c), (s.atts[a].per_face ? s.atts[a].corner_vals[c / 3] : s.atts[a].corner_vals[c]).data());
+    auto value_of = [&](size_t a, int c) -> const std::vector<uint8_t> & { return s.atts[a].per_face ? s.atts[a].corner_vals[c / 3] : s.atts[a].corner_vals[c]; };
+    if (dedup4 < 2) {
+      for (size_t a = 0; a < s.atts.size(); ++a)
+        for (int c = 0; c < np; ++c) pb.SetAttributeValueForPoint(ids[a], PointIndex(c), value_of(a, c).data());
+    } else {
+      size_t rec = 3;                                    // three bytes of padding in front of every record
+      std::vector<size_t> off;
+      for (size_t a = 0; a < s.atts.size(); ++a) { off.push_back(rec); rec += value_of(a, 0).size(); }
+      std::vector<uint8_t> inter(rec * (size_t)np, 0xEE);
+      for (size_t a = 0; a < s.atts.size(); ++a)
+        for (int c = 0; c < np; ++c) memcpy(&inter[rec * (size_t)c + off[a]], value_of(a, c).data(), value_of(a, c).size());
+      for (size_t a = 0; a < s.atts.size(); ++a) pb.SetAttributeValuesForAllPoints(ids[a], inter.data() + off[a], (int)rec);
+    }
     std::unique_ptr<PointCloud> pc = pb.Finalize(dedup != 0);
     ProjAcc acc2;
     const std::string inj = project_soup(s, acc2);
